@@ -3,8 +3,8 @@ from __future__ import annotations
 
 import ast
 
-from ..core import dotted, norm, call_name
-from ..util import is_attr, names_in, parent_map, str_consts
+from ..core import dotted, norm, call_name, kwarg
+from ..util import assigned_targets, is_attr, names_in, parent_map, str_consts
 
 EXPLANATION = """
 Decided statically: (T1) lookups keyed by a name never test a str against a builtin list of model
@@ -15,7 +15,7 @@ get_renames_for_einsum passes a value derived from the Einsum's own name, never 
 precedence: default entries are appended only from entries named "default" and only when the name is
 absent from the per-Einsum list, and top-level renames are appended to an Einsum only when absent from the
 Einsum's own renames; (T4) Rename._eval_expressions raises EvaluationError on an expected_count
-mismatch. NOT decided: evaluation of the source set expressions themselves (C22).
+mismatch; (T5) the per-Einsum merge never mutates a list shared with the un-evaluated Einsum (fresh list after the shallow copy). NOT decided: evaluation of the source set expressions themselves (C22).
 """
 
 REN = "accelforge/frontend/renames.py"
@@ -217,7 +217,37 @@ def _t4(ctx):
         ctx.bad(R, fi, fi.node.body[0], "no `raise EvaluationError` under a `len(source) != expected_count` test: a mismatching expected_count is accepted")
 
 
+def _t5(ctx):
+    R = "C29-T5"
+    ctx.doc(R, "no mutation through a shallow copy: after `self = self.model_copy()` a list field is re-bound to a fresh list before anything is appended to it")
+    fe = ctx.func(WL, "Einsum._eval_expressions", R)
+    cfg = ctx.cfg(fe)
+    pm = parent_map(fe.node)
+    copies = [st for st in fe.stmts() for t, v, _ in assigned_targets(st) if isinstance(t, ast.Name) and t.id == "self" and isinstance(v, ast.Call) and call_name(v) == "model_copy"]
+    ctx.require(len(copies) == 1, R, f"{fe.fq}: `self = self.model_copy()`")
+    deep = kwarg(copies[0].value, "deep")
+    is_deep = isinstance(deep, ast.Constant) and deep.value is True
+    k = 0
+    for c in fe.calls():
+        if not (isinstance(c.func, ast.Attribute) and c.func.attr in ("append", "extend", "insert", "update", "remove", "pop", "clear") and isinstance(c.func.value, ast.Attribute) and norm(c.func.value.value) == "self"):
+            continue
+        fld = c.func.value.attr
+        k += 1
+        st = c
+        while not isinstance(st, ast.stmt):
+            st = pm[id(st)]
+        n = cfg.node_of(st)
+        rebinds = [s2 for s2 in fe.stmts() for t, v, _ in assigned_targets(s2) if norm(t) == f"self.{fld}" and v is not None and
+                   (isinstance(v, ast.Call) and (call_name(v) in ("RenameList", "EvalableList", "list", "copy", "deepcopy", "model_copy") or norm(v.func).endswith(".copy")) or isinstance(v, (ast.List, ast.ListComp)))]
+        fresh = is_deep or any(cfg.node_of(r) is not None and cfg.dominates(cfg.node_of(copies[0]), cfg.node_of(r)) and cfg.dominates(cfg.node_of(r), n) for r in rebinds)
+        ctx.check(fresh, R, fe, st, f"`{norm(c)[:70]}` mutates `self.{fld}` after a SHALLOW model_copy(): the list is still shared with the un-evaluated Einsum, so entries merged for one evaluation "
+                                    f"persist and shadow the top-level renames of every later evaluation (stale per-Einsum/default resolution)",
+                  f"self.{fld} re-bound to a fresh list between the shallow copy and the mutation")
+    ctx.require(k >= 2, R, f"{fe.fq}: mutations of self fields found: {k}")
+
+
 def check(ctx):
+    _t5(ctx)
     _t1(ctx)
     _t2(ctx)
     _t3(ctx)
@@ -246,6 +276,8 @@ VARIANTS = [
          "            if tensor_rename.name in self.renames or True:\n                self.renames.append(tensor_rename)")]},
     {"kind": "F", "name": "expected-count-not-raised", "rule": "C29-T4", "edits": [
         (REN, "            and len(evaluated.source) != expected_count\n", "            and len(evaluated.source) < 0\n")]},
+    {"kind": "F", "name": "mutate-through-shallow-copy", "rule": "C29-T5", "edits": [
+        (WL, "        self: Einsum = self.model_copy()\n        self.renames = RenameList(self.renames)\n", "        self: Einsum = self.model_copy()\n")]},
     {"kind": "S", "name": "lookup-with-next", "edits": [
         (REN, "        matches = [e for e in self.einsums if e.name == einsum_name]\n", "        matches = list(e for e in self.einsums if einsum_name == e.name)\n")]},
     {"kind": "S", "name": "default-guard-as-eq", "edits": [
